@@ -286,6 +286,8 @@ def deriveIssues (o : Out) : List Issue :=
     (s.derives.flatMap fun d => s.fields.filterMap fun f =>
       if implements o.structs d f.ty then none
       else some (Issue.definite "derive-unsat" (d ++ ":" ++ tyTag d f.ty ++ ":" ++ s.name ++ "." ++ f.name))) ++
+    -- encase's derive refuses a struct without fields ("Only non empty structs with named fields are supported!")
+    (if s.derives.contains "encase::ShaderType" && s.fields.isEmpty then [Issue.definite "derive-shape" ("ShaderType-on-empty-struct:" ++ s.name)] else []) ++
     (if s.derives.contains "Copy" && !s.derives.contains "Clone" then [Issue.definite "derive-shape" ("Copy-without-Clone:" ++ s.name)] else []) ++
     (if s.derives.contains "bytemuck::Pod" && !s.reprC then [Issue.definite "derive-shape" ("Pod-without-repr:" ++ s.name)] else []) ++
     (if s.derives.contains "bytemuck::Pod" && !s.derives.contains "Copy" then [Issue.definite "derive-shape" ("Pod-without-Copy:" ++ s.name)] else []) ++
